@@ -42,56 +42,57 @@ def seed():
 # --------------------------------------------------------------------------
 # harness
 # --------------------------------------------------------------------------
-_built = False
+_built = set()
 
 
-def harness_bin():
-    return os.path.join(HARNESS, "target", "release", "yverif")
+def harness_bin(pkg):
+    return os.path.join(HARNESS, "target", "release", pkg)
 
 
-def build_harness():
-    """(Re)build the harness against /repo's current working tree."""
-    global _built
-    if _built:
-        return harness_bin()
+def build_harness(pkg):
+    """(Re)build harness package `pkg` (e.g. "yv-c12") against /repo's current
+    working tree.  Cargo recompiles whatever changed under /repo."""
+    if pkg in _built:
+        return harness_bin(pkg)
     env = dict(os.environ, CARGO_NET_OFFLINE="true")
     t0 = time.time()
     p = subprocess.run(
-        ["cargo", "build", "--offline", "--release", "--quiet"],
+        ["cargo", "build", "--offline", "--release", "--quiet", "-p", pkg],
         cwd=HARNESS, env=env, stdout=subprocess.PIPE, stderr=subprocess.STDOUT, text=True,
     )
     if p.returncode != 0:
         sys.stdout.write(p.stdout[-6000:])
-        raise ToolError("harness build failed")
-    log(f"[build] harness built in {time.time() - t0:.1f}s")
-    _built = True
-    return harness_bin()
+        raise ToolError(f"harness build failed ({pkg})")
+    log(f"[build] {pkg} built in {time.time() - t0:.1f}s")
+    _built.add(pkg)
+    return harness_bin(pkg)
 
 
-def run_harness(args, stdin_path=None, stdout_path=None, timeout=1800, env=None, check=True):
-    """Run `yverif <args>`; returns (returncode, stdout-text or None)."""
-    exe = build_harness()
+def run_harness(pkg, args, stdin_path=None, stdout_path=None, timeout=1800, env=None, check=True):
+    """Run `<pkg> <args>`; returns (returncode, stdout-text or None, stderr-text)."""
+    exe = build_harness(pkg)
     e = dict(os.environ)
     e.setdefault("VERIF_SEED", str(seed()))
     if env:
-        e.update(env)
+        e.update({k: str(v) for k, v in env.items()})
     fin = open(stdin_path, "rb") if stdin_path else subprocess.DEVNULL
     fout = open(stdout_path, "wb") if stdout_path else subprocess.PIPE
     try:
-        p = subprocess.run([exe] + list(args), stdin=fin, stdout=fout, stderr=subprocess.PIPE,
+        p = subprocess.run([exe] + [str(a) for a in args], stdin=fin, stdout=fout, stderr=subprocess.PIPE,
                            timeout=timeout, env=e)
     except subprocess.TimeoutExpired:
-        raise ToolError(f"harness timeout: {' '.join(args)}")
+        raise ToolError(f"harness timeout: {pkg} {' '.join(map(str, args))}")
     finally:
         if stdin_path:
             fin.close()
         if stdout_path:
             fout.close()
+    err = p.stderr.decode("utf-8", "replace")
     if check and p.returncode != 0:
-        sys.stdout.write(p.stderr.decode("utf-8", "replace")[-4000:])
-        raise ToolError(f"harness exited {p.returncode}: {' '.join(args)}")
+        sys.stdout.write(err[-4000:])
+        raise ToolError(f"harness exited {p.returncode}: {pkg} {' '.join(map(str, args))}")
     out = None if stdout_path else p.stdout.decode("utf-8", "replace")
-    return p.returncode, out
+    return p.returncode, out, err
 
 
 # --------------------------------------------------------------------------
@@ -130,7 +131,7 @@ def tlc(module, cfg=None, workdir=None, workers=8, timeout=900, simulate=None, d
     tag = f"{module}-{os.getpid()}-{int(time.time() * 1000) % 100000000}"
     meta = os.path.join(workdir or WORK, "tlc-" + tag)
     cfg = cfg or (module + ".cfg")
-    cmd = ["java", "-XX:+UseParallelGC", f"-Xmx{xmx}", "-Xss1g"]
+    cmd = ["java", "-XX:+UseParallelGC", f"-XX:ParallelGCThreads={max(2, min(8, int(workers)))}", f"-Xmx{xmx}", "-Xss1g"]
     if depth_first:
         cmd.append("-Dtlc2.tool.queue.IStateQueue=StateDeque")
     cmd += ["-cp", TLA_CP, "tlc2.TLC", "-metadir", meta, "-cleanup", "-noGenerateSpecTE",
